@@ -10,6 +10,7 @@ static HCfg cfg_of(const Case &c, int i) {
     if (i == 1 && !c.c(11)) { h.mtu = (size_t)std::max<int64_t>(576, std::min<int64_t>(c.c(8, 1500), 9216)); h.wifi = (int)c.c(9); h.own = (uint64_t)c.c(10, 0x020000000002LL); }
     if (i == 1 && c.c(11) == 1) h.own ^= 0x01;    // same everything (also the same station table) except the own address' last bit
     // c.c(11) == 2: same everything INCLUDING the hardware address (bond slaves, VLAN sub-interfaces): only the context pointer tells them apart
+    if (i == 2) { h = cfg_of(c, 1); h.own ^= 0x020000; h.mtu = 1280; }   // a third interface (present when the case has steps for it)
     return h;
 }
 static std::vector<Op> ops_of(const Case &c, int i) {
@@ -41,7 +42,102 @@ static std::vector<std::vector<Ev>> solo(const Case &c, int i) {
 }
 
 #ifndef FLAVOUR_TSAN
-static Verdict run(const Case &c) {
+// ---- the automata layer: one set of engines (mapping, session, enumeration, session table, tick) per interface, as the daemons keep them.
+// cfg = {7, engines 2..3}; ops: 1 frame (a: what, engine, mapper, acknowledging) 2 advance (a: ms) 3 tick (a: engine, -1 = every engine in turn)
+// The per-engine trace (states, table, RepeatBand numbers, periodic Hellos with their times after every frame and tick of that engine) must be
+// the same whether the other engines exist and are busy or not; the clock is common to both runs.
+static void count_hello17(void *u) { ++*(int *)u; }
+static std::vector<uint64_t> engines_trace(const Case &c, int only) {
+    std::vector<uint64_t> tr;
+    World w;
+    int k = (int)std::max<int64_t>(2, std::min<int64_t>(c.c(1, 2), 3));
+    uint64_t now = 5000;
+    vp_set_now_ms(now);
+    struct E { br_darwin d{}; IfCfg ic; int ifi = -1; int hellos = 0; bool on = false; };
+    std::vector<E> en((size_t)k);
+    for (int x = 0; x < k; x++) {
+        E &e = en[(size_t)x];
+        e.on = only < 0 || only == x;
+        if (!e.on) continue;
+        e.ic.mac = mac_from_u64(0x020000000011ULL + (uint64_t)x);
+        e.ifi = w.add_if(e.ic);
+        memcpy(e.d.mac, e.ic.mac.b, 6);
+        e.d.ctx = w.ctx(e.ifi); e.d.send_hello = count_hello17; e.d.user = &e.hellos; e.d.call_parse_frame = 1; e.d.skip_trailing_tick = 0;
+        if (br_darwin_init(&e.d) != 0) { tr.push_back(0xDEAD); return tr; }
+    }
+    auto snap = [&](E &e) {
+        br_band b; br_band_get(br_aut_extra(e.d.enumeration), &b);
+        br_mapst ms; br_mapst_get(br_aut_extra(e.d.mapping), &ms);
+        uint64_t vals[] = {(uint64_t)br_aut_state(e.d.mapping), (uint64_t)br_aut_state(e.d.session), (uint64_t)br_aut_state(e.d.enumeration), (uint64_t)br_st_count(e.d.table),
+                           (uint64_t)br_st_is_empty(e.d.table), (uint64_t)br_st_all_complete(e.d.table), b.Ni, b.r, (uint64_t)b.begun, b.hello_ts, b.block_ts, ms.ctc, (uint64_t)e.hellos, e.d.last_hello_tx_ms};
+        tr.push_back(fnv(vals, sizeof vals));
+    };
+    for (auto &op : c.ops) {
+        if (op.kind == 2) { now += (uint64_t)std::max<int64_t>(0, std::min<int64_t>(op.arg(0), 100000)); vp_set_now_ms(now); continue; }
+        if (op.kind == 3) {
+            for (int x = 0; x < k; x++) if ((op.arg(0) < 0 || op.arg(0) % k == x) && en[(size_t)x].on) { br_darwin_idle_tick(&en[(size_t)x].d); (void)drain_log(); if (only < 0 ? true : true) snap(en[(size_t)x]); }
+            continue;
+        }
+        if (op.kind != 1) continue;
+        int x = (int)(((op.arg(1) % k) + k) % k);
+        E &e = en[(size_t)x];
+        if (!e.on) continue;
+        Mac mp = mac_from_u64(0x0200AA000001ULL + ((uint64_t)(op.arg(2) & 3) << 8));
+        Bytes f;
+        switch ((int)op.arg(0)) {
+            case 0: { std::vector<Mac> st = {mac_from_u64(0x0600BB000001ULL)}; if (op.arg(3)) st.push_back(e.ic.mac); f = mk_discover(mp, mp, 0, (uint16_t)(1 + (op.arg(3) & 1)), 5, st); break; }
+            case 1: f = mk_hello(mac_from_u64(0x0200CC000001ULL), 0, 5, mp, mp); break;
+            case 2: f = mk_simple(BCAST, mp, 0, OP_RESET, BCAST, mp, 0); break;
+            case 3: f = mk_simple(e.ic.mac, mp, 0, OP_CHARGE, e.ic.mac, mp, 0); break;
+            case 4: f = mk_simple(e.ic.mac, mp, 0, OP_QUERY, e.ic.mac, mp, 3); break;
+            default: { std::vector<EmitDesc> d = {{1, 0, e.ic.mac, mac_from_u64(0x0400F0000001ULL)}}; f = mk_emit(e.ic.mac, mp, e.ic.mac, mp, 4, d); break; }
+        }
+        uint8_t *tf;
+        uint8_t *b = w.stage(e.ifi, f, CLEAN, &tf);
+        br_darwin_rx(&e.d, b, f.size());
+        free(tf);
+        (void)drain_log();
+        snap(e);
+    }
+    for (int x = 0; x < k; x++) if (en[(size_t)x].on) br_darwin_destroy(&en[(size_t)x].d);
+    return tr;
+}
+// which engine each trace element of the all-engines run belongs to
+static std::vector<int> engines_owner(const Case &c) {
+    std::vector<int> o;
+    int k = (int)std::max<int64_t>(2, std::min<int64_t>(c.c(1, 2), 3));
+    for (auto &op : c.ops) {
+        if (op.kind == 3) { for (int x = 0; x < k; x++) if (op.arg(0) < 0 || op.arg(0) % k == x) o.push_back(x); }
+        else if (op.kind == 1) o.push_back((int)(((op.arg(1) % k) + k) % k));
+    }
+    return o;
+}
+static Verdict run_engines(const Case &c) {
+    Verdict v;
+    int k = (int)std::max<int64_t>(2, std::min<int64_t>(c.c(1, 2), 3));
+    std::vector<uint64_t> all = engines_trace(c, -1);
+    std::vector<int> owner = engines_owner(c);
+    if (all.size() != owner.size()) { v.fail("constructors failed without fault injection"); return v; }
+    int busy = 0;
+    for (int x = 0; x < k && v.ok; x++) {
+        std::vector<uint64_t> alone = engines_trace(c, x);
+        size_t j = 0, mine = 0;
+        for (size_t i = 0; i < all.size() && v.ok; i++) {
+            if (owner[i] != x) continue;
+            mine++;
+            if (j >= alone.size() || alone[j] != all[i]) v.fail(fmt("automata layer: the %zu-th frame/tick of interface %d leaves its engines (states, session table, RepeatBand numbers, periodic Hellos) in another condition next to %d busy interface(s) than alone", j + 1, x, k - 1));
+            j++;
+        }
+        if (mine >= 3) busy++;
+    }
+    v.nontrivial = busy >= 2;
+    v.cls(fmt("engines=%d", k));
+    return v;
+}
+
+static Verdict run_frames(const Case &c);
+static Verdict run(const Case &c) { return c.c(0) == 7 ? run_engines(c) : run_frames(c); }
+static Verdict run_frames(const Case &c) {
     Verdict v;
     // In a sampled (forked) evaluation each solo history additionally runs in a process of its own, forked BEFORE this process has
     // executed any code under test: a process-wide cache or a function-local static introduced into the core is then not shared
@@ -56,17 +152,19 @@ static Verdict run(const Case &c) {
             if (!okc) { v.fail(fmt("interface %d: the history run alone in a fresh process crashed", i)); return v; }
         }
     }
-    std::vector<std::vector<Ev>> s[2] = {solo(c, 0), solo(c, 1)};
-    HCfg h[2] = {cfg_of(c, 0), cfg_of(c, 1)};
+    bool third = false;
+    for (auto &o : c.ops) if (o.kind / 100 == 2) third = true;
+    std::vector<std::vector<Ev>> s[3] = {solo(c, 0), solo(c, 1), third ? solo(c, 2) : std::vector<std::vector<Ev>>()};
+    HCfg h[3] = {cfg_of(c, 0), cfg_of(c, 1), cfg_of(c, 2)};
     World w;
     HCfg::from_case(c).apply_global(w);
-    int ifi[2] = {w.add_if(h[0].ifcfg()), w.add_if(h[1].ifcfg())};
-    Shadow sh[2];
-    size_t idx[2] = {0, 0}, tx[2] = {0, 0};
+    int ifi[3] = {w.add_if(h[0].ifcfg()), w.add_if(h[1].ifcfg()), third ? w.add_if(h[2].ifcfg()) : -1};
+    Shadow sh[3];
+    size_t idx[3] = {0, 0, 0}, tx[3] = {0, 0, 0};
     int switches = 0, last = -1;
     for (size_t k = 0; k < c.ops.size() && v.ok; k++) {
         int i = c.ops[k].kind / 100;
-        if (i > 1) continue;
+        if (i > 2) continue;
         Op op = c.ops[k]; op.kind %= 100;
         std::vector<Ev> e = step(w, ifi[i], h[i], op, sh[i]);
         if (!(e == s[i][idx[i]])) {
@@ -88,6 +186,7 @@ static Verdict run(const Case &c) {
     v.nontrivial = tx[0] >= 2 && tx[1] >= 2 && switches >= 2;
     if (c.c(11)) v.cls(c.c(11) == 2 ? "identical-configurations-and-address" : "identical-configurations");
     if (switches >= 2) v.cls("alternates>=2");
+    if (third) v.cls("three-interfaces");
     return v;
 }
 #else
@@ -204,13 +303,17 @@ int main(int argc, char **argv) {
                 o.kind += take0 ? 0 : 100;
                 c.ops.push_back(o);
             }
+            if (force_phase < 0 && *gx::chance(30)) {   // a third interface whose frames fall between the other two's (sequential build only)
+                auto o2 = *hg::ops_gen(w, 1, 12);
+                for (auto &o : o2) { o.kind += 200; c.ops.insert(c.ops.begin() + *gx::range<int>(0, (int)c.ops.size()), o); }
+            }
             return c;
         });
     };
     bool ok;
 #ifndef FLAVOUR_TSAN
     ev.rule = "part 1 (this build): two interface contexts with independently generated configurations (or identical ones incl. the same station table) and histories, generated merge order, Reset on one in the middle of the other's session; "
-              "per-interface transmit trace under the interleaving must equal the trace of the same history run alone in a fresh process state (for a sample of the cases, and for a deterministic family of configuration-dependent requests on two differently configured interfaces, 'alone' literally runs in a freshly forked process). part 2 (TSan build): see histogram keys c17-threads. "
+              "per-interface transmit trace under the interleaving must equal the trace of the same history run alone in a fresh process state (for a sample of the cases, and for a deterministic family of configuration-dependent requests on two differently configured interfaces, 'alone' literally runs in a freshly forked process). part 1b: the automata layer - two or three complete sets of engines driven by frames, ticks and a common clock: each set's condition after every one of its frames/ticks equals what the same history gives when the other sets do not exist. part 2 (TSan build): see histogram keys c17-threads. "
               "non-trivial = both histories elicit >= 2 transmissions and the merge alternates >= 2 times; distinct = digest of the case";
     // deterministic family, each case in a fresh process: two interfaces that differ in every configuration value, every order of "who
     // sees a frame first", and on each the requests whose answers depend on the interface's own configuration (Hello attributes, large-TLV
@@ -244,6 +347,22 @@ int main(int argc, char **argv) {
         }
     }
     if (ok) ok = run_cases(a, ev, "c17-interleavings", a.n(15000, 400000), 100, gen(-1), run);
+    if (ok) {
+        auto geng = rc::gen::exec([] {
+            Case c; c.cfg = {7, *gx::pick({2, 2, 3})};
+            int n = *gx::range<int>(4, 60);
+            c.ops = *rc::gen::resize(n, rc::gen::container<std::vector<Op>>(rc::gen::exec([] {
+                Op o;
+                int r = *gx::range<int>(0, 99);
+                if (r < 50) { o.kind = 1; o.a = {*gx::pick({0, 0, 0, 1, 1, 2, 3, 4, 5}), *gx::range<int64_t>(0, 2), *gx::range<int64_t>(0, 3), *gx::pick({0, 0, 1})}; }
+                else if (r < 75) { o.kind = 2; o.a = {*gx::pick({0, 1, 100, 300, 301, 999, 1000, 1001, 5000, 29000, 30000, 31000, 60000, 61000, 62000})}; }
+                else { o.kind = 3; o.a = {*gx::pick({-1, -1, 0, 1, 2})}; }
+                return o;
+            })));
+            return c;
+        });
+        ok = run_cases(a, ev, "c17-engines", a.n(6000, 100000), 100, geng, run);
+    }
 #else
     ev.rule = "part 2 (this build, ThreadSanitizer, lock-free thread-local port): per round two threads are released by a barrier and each delivers its generated history to its own interface context. Phase A: both contexts new "
               "(both first frames at the same moment); phase B: both contexts warmed up sequentially first. Every ThreadSanitizer report is classified by the innermost core frame of both racing accesses; "
